@@ -21,6 +21,7 @@ func init() {
 }
 
 func runC36(c *core.Ctx) {
+	checkRelayerListLoops(c)
 	ht := c.Fn(pkTxPool, "TxActor.handleTransaction")
 	ivs := eng.Obj(c, pkTxPool, "TxActor.isValidSender")
 	atw := eng.Obj(c, pkTxPool, "TXPoolServer.assignTxToWorker")
